@@ -4,6 +4,7 @@
   `lookahead`), spec: `IE` = Σ over 0/1 offset vectors `e` with `i + e ∈ S` of (-1)^{|e|}.
 -/
 import AmiscProofs.IndexExtra
+import AmiscProofs.SparseBridge
 
 namespace Amisc.C01
 
@@ -117,6 +118,33 @@ theorem lookahead_eq_IE (box : Idx) (rs : List Idx) (h : WT box rs) (c : Idx) (h
     rw [hlen s hs, hlen i hi]
   · rw [if_neg hi]
     exact CMap.get_of_not_has (fun hh => hi ((hhas i).mp hh))
+
+/-- **Training-mode weights sum to exactly 1** after any request history that activated something. -/
+theorem train_weights_sum_one (box : Idx) (rs : List Idx) (h : WT box rs) (hne : (run box rs).active ≠ []) :
+    ((run box rs).active.map fun i => ((run box rs).ctrain.get i).getD 0).sum = 1 := by
+  have inv := inv_run box rs h
+  rw [← Amisc.SB.sum_IE_eq_one inv.nodupA inv.lenA inv.down hne]
+  congr 1
+  apply List.map_congr_left
+  intro i hi
+  rw [ctrain_eq_IE box rs h i, if_pos hi]; rfl
+
+/-- **Evaluation-mode weights sum to exactly 1** (over active ∪ candidate). -/
+theorem test_weights_sum_one (box : Idx) (rs : List Idx) (h : WT box rs) (hne : (run box rs).active ≠ []) :
+    (((run box rs).active ++ (run box rs).cand).map fun i => ((run box rs).ctest.get i).getD 0).sum = 1 := by
+  have inv := inv_run box rs h
+  have hlen : ∀ s ∈ (run box rs).active ++ (run box rs).cand, s.length = box.length := by
+    intro s hs
+    rcases List.mem_append.mp hs with h1 | h1
+    · exact inv.lenA s h1
+    · exact inv.lenC s h1
+  have hne' : (run box rs).active ++ (run box rs).cand ≠ [] := by
+    intro e; exact hne (List.append_eq_nil_iff.mp e).1
+  rw [← Amisc.SB.sum_IE_eq_one inv.nodupAC hlen inv.downAC hne']
+  congr 1
+  apply List.map_congr_left
+  intro i hi
+  rw [ctest_eq_IE box rs h i, if_pos hi]; rfl
 
 /-! non-vacuity: a concrete history (with an inadmissible and a repeated request) in a 2×3 box -/
 example : WT [1, 2] [[0, 0], [1, 0], [5, 5], [0, 1], [1, 0], [1, 1]] := by
